@@ -367,6 +367,14 @@ def check_siminput(case_sim, inp, tbname, style, out):
     else:
         for k, ((a, n), g) in enumerate(zip(want_ct, inp.ctrls)):
             w, r = exp_ctrl(a, n), read_ctrl(g)
+            if w[0] == "save_signal" and r[0] == "save_signal" and ("sigs" in a["targ"] or "names" in a["targ"]):
+                # a list of targets: any separator will do, the names must all be there, in order
+                import re as _re
+                names = a["targ"].get("sigs") or a["targ"].get("names")
+                got_names = [x for x in _re.split(r"[,;\s]+", r[1]) if x]
+                if got_names != list(names):
+                    out.append(("control:save_list", "ctrls[%d]: save targets %r exported as %r" % (k, names, r[1])))
+                continue
             if w != r:
                 out.append(("control:%s" % w[0], "ctrls[%d]: expected %r, exported %r" % (k, w, r)))
     if len(inp.opts) != len(want_op):
